@@ -191,7 +191,11 @@ def main():
             s.calculate_activation(env, exposure=10.0, rest_times=(0, 1))
             return sorted((str(k.isotope), k.daughter, repr(v[0])) for k, v in s.activity.items())
         if name == "water":     # the composite numbers everybody computes first
-            return [pt.neutron_sld("H2O@1"), pt.xray_sld("H2O@1", energy=8.0), pt.neutron_sld("D2O@1.1")]
+            if t is pt.elements:
+                return [pt.neutron_sld("H2O@1"), pt.xray_sld("H2O@1", energy=8.0), pt.neutron_sld("D2O@1.1")]
+            return [pt.neutron_sld(formulas.formula("H2O@1", table=t)),
+                    pt.xray_sld(formulas.formula("H2O@1", table=t), energy=8.0),
+                    pt.neutron_sld(formulas.formula("D2O@1.1", table=t))]
         raise ValueError("unknown calculator " + name)
 
     out = []
